@@ -63,10 +63,10 @@ def attr_lines(cfg):
 def decl_lines(case, derive=True, ename="E"):
     out = []
     if derive:
-        out.append("#[derive(Clone, Copy, EnumTools)]")
+        out.append("#[derive(::core::clone::Clone, ::core::marker::Copy, ::enum_tools::EnumTools)]")
         out += attr_lines(case["cfg"])
     else:
-        out.append("#[derive(Clone, Copy)]")
+        out.append("#[derive(::core::clone::Clone, ::core::marker::Copy)]")
     out.append(f"#[repr({case['repr']})]")
     vis = case.get("enum_vis", "pub")
     out.append(f"{vis + ' ' if vis else ''}enum {ename} {{")
@@ -143,27 +143,93 @@ def glue_lines(case, ename="E", path="super::d"):
         L.append(f"    c.zip = Some(|| E::{nm['iter']}().zip(E::{nm['names']}()).map(|(v, s)| (cv(v), s.to_string())).collect());")
     L.append("    c")
     L.append("}")
+    # C19: the documented signatures, as compile-time ascriptions (never executed).  A deviation makes the
+    # glue of this case fail to compile, which is reported as a C19 violation.
+    iter_struct = f"{path}::" + dict(case["cfg"]["feats"]).get("iter", {}).get("struct_name", f"{ename}Iter")
+    names_struct = f"{path}::" + dict(case["cfg"]["feats"]).get("names", {}).get("struct_name", f"{ename}Names")
+    v0 = vs[0]["ident"]
+    L.append("#[allow(dead_code)] fn sigs() {")
+    if "into" in nm:
+        L.append(f"    const _I: {r} = E::{nm['into']}(E::{v0}); static _S: {r} = E::{nm['into']}(E::{v0}); let _a = [0u8; (E::{nm['into']}(E::{v0}) as usize) & 1];")
+        L.append(f"    let _: fn(E) -> {r} = E::{nm['into']};")
+    if "MIN" in nm:
+        L.append(f"    const _MIN: E = E::{nm['MIN']};")
+    if "MAX" in nm:
+        L.append(f"    const _MAX: E = E::{nm['MAX']};")
+    if "next" in nm:
+        L.append(f"    let _: fn(E) -> ::core::option::Option<E> = E::{nm['next']};")
+    if "next_back" in nm:
+        L.append(f"    let _: fn(E) -> ::core::option::Option<E> = E::{nm['next_back']};")
+    if "try_from" in nm:
+        L.append(f"    let _: fn({r}) -> ::core::option::Option<E> = E::{nm['try_from']};")
+    if "from_str" in nm:
+        L.append(f"    let _: fn(&str) -> ::core::option::Option<E> = E::{nm['from_str']};")
+    if "as_str" in nm:
+        L.append(f"    let _: fn(E) -> &'static str = E::{nm['as_str']};")
+    if "iter" in nm:
+        L.append(f"    let _: fn() -> {iter_struct} = E::{nm['iter']};")
+        L.append(f"    fn is_it<T: ::core::iter::Iterator<Item = E> + ::core::iter::DoubleEndedIterator + ::core::iter::ExactSizeIterator + ::core::iter::FusedIterator>() {{}} is_it::<{iter_struct}>();")
+    if "range" in nm:
+        L.append(f"    let _: fn(E, E) -> {iter_struct} = E::{nm['range']};")
+    if "names" in nm:
+        L.append(f"    let _: fn() -> {names_struct} = E::{nm['names']};")
+        L.append(f"    fn is_nm<T: ::core::iter::Iterator<Item = &'static str> + ::core::iter::DoubleEndedIterator + ::core::iter::ExactSizeIterator + ::core::iter::FusedIterator>() {{}} is_nm::<{names_struct}>();")
+    if "FromStr" in nm:
+        L.append("    let _: <E as ::core::str::FromStr>::Err = ();")
+    if "TryFrom" in nm:
+        L.append(f"    let _: <E as ::core::convert::TryFrom<{r}>>::Error = ();")
+    if "Debug" in nm:
+        L.append("    fn is_dbg<T: ::core::fmt::Debug>() {} is_dbg::<E>();")
+    if "Display" in nm:
+        L.append("    fn is_dsp<T: ::core::fmt::Display>() {} is_dsp::<E>();")
+    if "Into" in nm:
+        L.append(f"    fn is_from<T: ::core::convert::From<E>>() {{}} is_from::<{r}>();")
+    if "IntoStr" in nm:
+        L.append("    fn is_froms<T: ::core::convert::From<E>>() {} is_froms::<&'static str>();")
+    L.append("}")
     return L
 
 
-def case_module(case, ctx_prelude=None):
-    """returns (lines, decl_range, glue_range) with 0-based line offsets relative to the module start"""
+def case_module(case, ctx_prelude=None, extern_decl=None):
+    """returns (lines, decl_range, glue_range) with 0-based line offsets relative to the module start.
+    extern_decl: path of the module holding the declaration when it lives in another crate (no_std library)"""
     L = [f"pub mod c{case['id']} {{"]
-    L.append("    pub mod d {")
-    if ctx_prelude:
-        for x in ctx_prelude:
+    d0 = d1 = len(L)
+    if extern_decl is None:
+        L.append("    pub mod d {")
+        inner = [x for x in (ctx_prelude or []) if x.startswith("#![")]
+        for x in inner:
             L.append("        " + x)
-    L.append("        use ::enum_tools::EnumTools;")
-    d0 = len(L)
-    for x in decl_lines(case):
-        L.append("        " + x)
-    d1 = len(L)
-    L.append("    }")
+        for x in (ctx_prelude or []):
+            if x not in inner:
+                L.append("        " + x)
+        d0 = len(L)
+        for x in decl_lines(case):
+            L.append("        " + x)
+        d1 = len(L)
+        L.append("    }")
     L.append("    pub mod g {")
     g0 = len(L)
-    for x in glue_lines(case):
+    for x in glue_lines(case, path=extern_decl or "super::d"):
         L.append("        " + x)
     g1 = len(L)
     L.append("    }")
     L.append("}")
     return L, (d0, d1), (g0, g1)
+
+
+def decl_module(case, ctx_prelude=None):
+    """the declaration alone, as a module of the #![no_std] corpus library. returns (lines, decl_range)"""
+    L = [f"pub mod c{case['id']} {{", "    pub mod d {"]
+    inner = [x for x in (ctx_prelude or []) if x.startswith("#![")]
+    for x in inner:
+        L.append("        " + x)
+    for x in (ctx_prelude or []):
+        if x not in inner:
+            L.append("        " + x)
+    d0 = len(L)
+    for x in decl_lines(case):
+        L.append("        " + x)
+    d1 = len(L)
+    L += ["    }", "}"]
+    return L, (d0, d1)
